@@ -1,9 +1,15 @@
-"""C03 -- results are independent of atom labelling and internal qubit reordering."""
-from contracts import mps_dataflow as D, mps_dataflow_sites as S, mps_results as R
+"""C03 -- results are independent of atom labelling and internal qubit reordering (the ordering /
+data-flow clauses: which atom every reported entry belongs to)."""
+from contracts import frame_scan, mps_dataflow as D, mps_dataflow_sites as S, mps_results as R
 
 ID = "C03"
 LEVEL = "proof"
 REPLAY = "replay/c03.py"
+
+
+def extra_checks(tier, seed, repo_root):
+    """syntactic frame of the ordering state (justifies the models of init()/_run())"""
+    return frame_scan.run("C03", repo_root)
 
 
 def build(reg):
@@ -16,8 +22,40 @@ def build(reg):
                  f"{M}:MPSBackendImpl.__init__[drives,N=4]",
                  f"{M}:permute_bitstrings", f"{M}:permute_bitstrings[no bitstrings]",
                  f"{M}:permute_occupations_and_correlations", f"{M}:permute_atom_order",
-                 f"{M}:MPSBackendImpl.permute_results",
+                 f"{M}:MPSBackendImpl.permute_results", f"{M}:MPSBackendImpl.fill_results[no filter]",
                  f"{B}:MPSBackend._run_from_sequence_data", f"{B}:MPSBackend._run_from_sequence_data[N=4]",
                  f"{B}:MPSBackend.resume", f"{B}:MPSBackend.resume[N=4]"],
-        not_decided=[], trusted=[], bounded=[],
+        explanation=(
+            "Ghost convention: MPS site k holds register atom perm[k].  Proved (all register sizes N, all "
+            "permutations): impl.results lists atoms in site order (atom_order[k] == qubit_ids[perm[k]]); perm is "
+            "the identity when optimize_qubit_ordering is off; the drives stored per site are those of atom perm[k] "
+            "(so that switching the optimisation on changes no reported value -- given C32's contract of the "
+            "optimiser); permute_results(…, True) brings atom_order, bitstrings, occupations and correlation "
+            "matrices back to register order (position perm[k] shows what site k held); a finished run AND a "
+            "resumed run report register order."),
+        not_decided=[
+            "numerical agreement of the reported values with a reference propagator (only WHICH atom a value "
+            "belongs to is decided here)",
+            "invariance under relabelling the atoms of the register itself (Pulser's Register -> SequenceData "
+            "conversion is outside emu-mps; C23/C34 cover the adapter)",
+            "observables other than bitstrings / occupation / correlation_matrix: MPSConfig switches the "
+            "optimisation off for them (C33, check_permutable_observables)",
+            "results whose per-time entries were deserialised to nested python lists (torch.tensor(list) branch of "
+            "permute_occupations_and_correlations): entries are modelled as tensors",
+            "aggregation over several trajectories (Results.aggregate in MPSBackend.run)",
+        ],
+        trusted=[
+            "frame of the unverified stepping code: MPSBackendImpl.init(), progress() and the callbacks do not "
+            "write qubit_permutation / pulser_data / results.atom_order -- checked syntactically over every module of "
+            "emu_mps by the frame scan (obligations frame-scan[emu_mps]/…), aliasing through other names is trusted",
+            "create_impl returns an object built by MPSBackendImpl.__init__ (subclasses call super().__init__ "
+            "first and do not touch the ordering fields: same frame scan)",
+            "pickle.load(autosave) returns the impl object that was saved (C26/C27), i.e. one in site order",
+            "pulser Results: atom_order / _results / get_result_tags / _find_uuid behave as a record and a dict",
+            "contracts of the permutation helpers and of minimize_bandwidth (verified under C32)",
+        ],
+        bounded=["a Counter of bitstrings is represented by ONE arbitrary entry {string: count} (the code maps "
+                 "the entries independently); number of evaluation times, atoms and string length are symbolic",
+                 "[N=4] variants repeat a clause at N = 4 only to obtain concrete counter-models on a broken "
+                 "tree; the proofs are the symbolic-N contracts"],
     )
